@@ -2,14 +2,14 @@
 import os
 import sys
 sys.path.insert(0, os.path.dirname(os.path.dirname(os.path.abspath(__file__))))
-from props.common import main, Run, run_child  # noqa: E402
+from props.common import main, Run, run_child, ALL_SIDECARS  # noqa: E402
 from props.opcodes import opcode_contracts, frame_contracts  # noqa: E402
 
 import z3  # noqa: E402
 from props import faces  # noqa: E402
 from pyvc.state import Obligation  # noqa: E402
 
-SIDE = ("severity", "externals", "pickled_api", "interp", "interp_run")
+SIDE = ALL_SIDECARS
 RUNTIME_FNS = ["fickle.Pickled.__iter__", "fickle.Pickled.__len__", "fickle.Pickled.__getitem__", "fickle.Interpreter.__init__",
                "fickle.Interpreter.next_variable_id", "fickle.Interpreter.step", "fickle.Interpreter.run", "fickle.Interpreter.to_ast",
                "fickle.Interpreter.interpret", "tracing.Trace.__init__", "tracing.Trace.on_pop", "tracing.Trace.on_push",
